@@ -11,6 +11,7 @@ import (
 	"os"
 	"path/filepath"
 	"sort"
+	"strings"
 
 	"verif/internal/core"
 	"verif/internal/props"
@@ -50,6 +51,16 @@ func main() {
 			os.Exit(2)
 		}
 		fn := p.Func(args[1], args[2])
+		if i := strings.Index(args[2], "$"); fn == nil && i > 0 {
+			// a function literal: NewConn$2
+			if base := p.Func(args[1], args[2][:i]); base != nil {
+				for _, l := range core.Closures(base) {
+					if l.Name() == args[2] {
+						fn = l
+					}
+				}
+			}
+		}
 		if fn == nil {
 			fmt.Fprintln(os.Stderr, "no such function")
 			os.Exit(2)
